@@ -22,6 +22,7 @@ class Cfg:
         self.alphabet = SIMPLE
         self.bundle_alphabet = None  # names of ports/cables (default: alphabet)
         self.scale = True          # now and then sizes past 9: two-digit indices, >=10 siblings
+        self.scale_many = 20       # 1 in N definitions gets 9-12 (17-20) ports / cables / children
         self.unnamed = False       # allow elements without name
         self.lower_index = True    # allow non-zero lower_index on multi-bit bundles
         self.scalar_lower_index = False  # allow non-zero lower index on scalars
@@ -66,7 +67,8 @@ _json_leaf = st.one_of(st.integers(-3, 99), st.booleans(), st.sampled_from(["", 
 # {"__tuple__": [...]} is built as a tuple (an immutable container that may hold mutable ones)
 _json_val = st.recursive(_json_leaf, lambda ch: st.one_of(
     st.lists(ch, max_size=3), st.dictionaries(st.sampled_from(["k", "K", "z"]), ch, max_size=2),
-    st.fixed_dictionaries({"__tuple__": st.lists(ch, min_size=1, max_size=3)})),
+    st.fixed_dictionaries({"__tuple__": st.lists(ch, min_size=1, max_size=3)}),
+    st.just([[[[[[["deep"]], {"k": [[1]]}]]]]])),   # seven levels of nesting
     max_leaves=4)
 
 
@@ -109,12 +111,12 @@ def _bundle(draw, cfg, used, tag):
     w = draw(st.integers(lo_w, cfg.max_width))
     big = cfg.scale and cfg.max_width > 1 and draw(st.integers(0, 15)) == 0
     if big:
-        w = draw(st.integers(10, 17))
+        w = draw(st.integers(10, 17)) if draw(st.integers(0, 3)) else draw(st.integers(31, 36))
     arr = w > 1 or (cfg.one_wide_arrays and w == 1 and draw(st.integers(0, 4)) == 0)
     lo = 0
     if cfg.lower_index and (arr or cfg.scalar_lower_index) and draw(st.booleans()):
         lo = draw(st.integers(0, 5)) if not (cfg.scale and draw(st.integers(0, 7)) == 0) \
-            else draw(st.integers(8, 12))
+            else draw(st.one_of(st.integers(8, 12), st.integers(28, 33)))
     downto = True if not cfg.downto else draw(st.integers(0, 4)) != 0
     out = {"name": name, "w": w, "lo": lo, "arr": bool(arr), "downto": downto}
     if cfg.data_all:
@@ -145,6 +147,8 @@ def recipes(draw, cfg=None):
         d = {"name": _unique(draw, used_d[li], cfg.alphabet, cfg.unnamed, "_d")}
         used_p, used_c, used_i = set(), set(), set()
         nports = draw(st.integers(0, cfg.max_ports))
+        if cfg.scale and cfg.max_ports >= 3 and draw(st.integers(0, cfg.scale_many - 1)) == 0:
+            nports = draw(st.integers(9, 12))
         d["ports"] = []
         twin = None
         if cfg.twins and flat and nlibs > 1 and draw(st.integers(0, 3)) == 0:
@@ -174,12 +178,15 @@ def recipes(draw, cfg=None):
         d["conns"] = []
         if not leaf:
             ncab = draw(st.integers(0 if draw(st.integers(0, 5)) == 0 else 1, cfg.max_cables))
+            if cfg.scale and cfg.max_cables >= 3 and draw(st.integers(0, cfg.scale_many - 1)) == 0:
+                ncab = draw(st.integers(9, 12))
             for _ in range(ncab):
                 d["cables"].append(draw(_bundle(cfg, used_c, "_c")))
             nch = draw(st.integers(0 if draw(st.integers(0, 5)) == 0 else 1,
                                    cfg.max_children)) if flat else 0
-            if flat and cfg.scale and cfg.max_children >= 3 and draw(st.integers(0, 19)) == 0:
-                nch = draw(st.integers(10, 12))   # ten or more siblings
+            if flat and cfg.scale and cfg.max_children >= 3 and draw(st.integers(0, cfg.scale_many - 1)) == 0:
+                # ten or more siblings (now and then enough for "few of many" short-cuts: 8x)
+                nch = draw(st.integers(10, 12)) if draw(st.integers(0, 2)) else draw(st.integers(17, 20))
             for _ in range(nch):
                 if cfg.noref_children and draw(st.integers(0, 9)) == 0:
                     ref = None
